@@ -94,6 +94,8 @@ ParseEvent(r) ==
     sid |-> IF "sid" \in DOMAIN r THEN r.sid ELSE 0,
     ret |-> r.ret, out |-> ParseOut(r.out),
     dead |-> ToSet(r.post.dead), obsOK |-> ObsOK(r.post),
+    \* connections whose session object is not the one registered under its id
+    orphans |-> {r.post.conns[i].c : i \in {j \in DOMAIN r.post.conns : "orphan" \in DOMAIN r.post.conns[j]}},
     \* paired runs (C17): the same history under no flag
     paired |-> "fl" \in DOMAIN r,
     fl     |-> IF "fl" \in DOMAIN r THEN ToSet(r.fl) ELSE {},
